@@ -4,7 +4,7 @@
 # archive it under /verif/seeded/C05/.
 set -u
 export GOFLAGS=-mod=mod GOPROXY=off GOSUMDB=off GOTOOLCHAIN=local
-ID=$1; SRC=/tmp/seed-$ID; OUT=/tmp/seed-$ID-out; DST=/verif/seeded/$ID
+ID=$1; R=${SEED_ROUND:-}; SRC=/tmp/seed$R-$ID; OUT=/tmp/seed$R-$ID-out; DST=/verif/seeded/$ID$( [ -n "$R" ] && echo "-r$R" )
 [ -f $OUT/patch.diff ] || { echo "$ID: no patch.diff"; exit 2; }
 mkdir -p $DST
 WT=$(mktemp -d /tmp/sc-XXXXXX); rmdir $WT
